@@ -79,6 +79,7 @@ type cell struct {
 	gateNested bool // also park at hook points reached while the calling session's own IK cache lock is held
 	parts      []string
 	twoGens    bool
+	skOlder    bool // partitions' keys are created half a lifetime after the SK; the run starts when the SK has expired and the IKs have not
 	workers    func(e *cenv) []*worker
 }
 
@@ -125,6 +126,15 @@ func cells() []cell {
 		return []*worker{
 			{label: "g1", prog: func(w *worker) { w.dec(e.sess["P1"], e.old["P1"]) }},
 			{label: "g2", prog: func(w *worker) { w.dec(e.sess["P2"], e.recs["P2"]) }},
+		}
+	}})
+	// the parent SK of a still-valid IK has expired: the encrypt path rejects it and rotates while another
+	// goroutine needs the same (old) SK to decrypt an old-generation record
+	rot := world.Default(time.Hour, time.Nanosecond, time.Minute)
+	out = append(out, cell{name: "sk-expired-ik-valid/rotate-vs-old-decrypt", cfg: rot, gateNested: true, parts: []string{"P1", "P2"}, skOlder: true, workers: func(e *cenv) []*worker {
+		return []*worker{
+			{label: "g1", prog: func(w *worker) { w.enc(e.sess["P2"], "P2"); w.dec(e.sess["P2"], e.recs["P2"]) }},
+			{label: "g2", prog: func(w *worker) { w.dec(e.sess["P1b"], e.recs["P1"]); w.dec(e.sess["P1"], e.recs["P1"]) }},
 		}
 	}})
 	// another session of the same partition is closed while one is in use (per-session caches)
@@ -181,14 +191,34 @@ func runCell(c cell, d *sched.DFS) (out schedOutcome) {
 		produce(e.old)
 		time.Sleep(time.Hour + 2*time.Minute)
 	}
+	if c.skOlder {
+		pf := e.w.Factory(world.Default(time.Hour, 30*time.Minute, time.Minute), "svc", "prod")
+		s, _ := pf.GetSession("seed")
+		if _, err := s.Encrypt(ctx, []byte("seed")); err != nil {
+			panic(err)
+		}
+		s.Close()
+		pf.Close()
+		time.Sleep(30 * time.Minute)
+	}
 	produce(e.recs)
 	e.f = e.w.Factory(c.cfg, "svc", "prod")
 	for _, p := range c.parts {
 		e.sess[p], _ = e.f.GetSession(p)
 		e.sess[p+"b"], _ = e.f.GetSession(p)
 	}
+	if c.skOlder {
+		// the factory under test is long-lived: it cached the SK while it was valid
+		if _, err := e.sess[c.parts[0]].Decrypt(ctx, *world.CopyDRR(e.recs[c.parts[0]].drr)); err != nil {
+			panic("warm-up decrypt failed: " + err.Error())
+		}
+		time.Sleep(31 * time.Minute) // SK now expired, IKs still valid
+	}
 	// warm: each partition's key is loaded once so that the interesting state is "cached, then evicted"
 	for _, p := range c.parts {
+		if c.skOlder {
+			break
+		}
 		if _, err := e.sess[p].Decrypt(ctx, *world.CopyDRR(e.recs[p].drr)); err != nil {
 			panic("warm-up decrypt failed: " + err.Error())
 		}
@@ -373,6 +403,10 @@ func stressC08(t *testing.T, r *ev.Run) {
 	sc := world.Default(time.Hour, time.Hour, time.Minute)
 	sc.SessCache, sc.SessCap, sc.SessDur, sc.SharedIK, sc.IKPolicy, sc.IKCap = true, 2, 2*time.Millisecond, true, "lru", 2
 	shapes = append(shapes, shape{"session-cache-2+shared-lru-2", sc, 6, 16, opsN})
+	// cached sessions with their own key caches: a session torn down while still held destroys keys under its users
+	sc2 := world.Default(time.Hour, time.Hour, time.Minute)
+	sc2.SessCache, sc2.SessCap, sc2.SessDur = true, 2, 2*time.Millisecond
+	shapes = append(shapes, shape{"session-cache-2+per-session-keys", sc2, 6, 16, opsN})
 	reps := ev.Pick(1, 5)
 	for rep := 0; rep < reps; rep++ {
 		for si, sh := range shapes {
